@@ -54,6 +54,12 @@ C = [
  ('c10_cr_not_whitespace', 'C10', ['tp'], 'tokenizer.rs', r" \|\| ch == '\\r'", ''),
  ('c10_comma_span_too_long', 'C10', ['tp'], 'tokenizer.rs', r'(Ok\(Token::Comma\(\n            &self\.input\[start\.\.start \+ 1\],\n            Span\(start, start \+ )1\)', r'\g<1>2)'),
  ('c10_string_keeps_quotes', 'C10', ['tp'], 'tokenizer.rs', r'&self\.input\[start \+ 1\.\.self\.current\(\) - 1\]', '&self.input[start..self.current()]'),
+ ('c10_true_not_bool', 'C10', ['tp'], 'tokenizer.rs', r'if atom == "True" \|\| atom == "true" \{', 'if atom == "true" {'),
+ ('c10_word_operator_prefix_match', 'C10', ['tp'], 'tokenizer.rs', r'(fn try_parse_op\(&self, start: usize\) -> bool \{\n        let mut tmp = self\.clone\(\);\n        loop \{\n            match tmp\.peek_one\(\) \{\n                Some\(\(_, ch\)\) => \{\n                    if is_whitespace_char\(ch\) \|\| is_delim_char\(ch\))', r"\1 || ch == ','"),
+ ('c10_greedy_stops_early', 'C10', ['tp'], 'tokenizer.rs', r'(if keyword::is_op\(&\(self\.input\[start\.\.self\.current\(\) \+ ch\.len_utf8\(\)\]\.to_string\(\)\)\)) \{', r"\1 && ch != '=' {"),
+ ('c10_identifier_takes_hash', 'C10', ['tp'], 'tokenizer.rs', r"\|\| ch == '_';", "|| ch == '_' || ch == '#';"),
+ ('c10_function_lookahead_wrong_token', 'C10', ['tp'], 'tokenizer.rs', r'if peek\.is_open_paren\(\) \{', 'if peek.is_open_bracket() {'),
+ ('c10_delim_kind_swapped', 'C10', ['tp'], 'token.rs', r'"\[" => OpenBracket,', '"[" => OpenBrace,'),
  # ---- C12 printer
  ('c12_prefix_operand_never_parenthesised', 'C12', ['pr'], 'parser.rs', r'if rhs\.is_prefix_operand\(\) \{', 'if true {'),
  ('c12_left_child_uses_left_power', 'C12', ['pr'], 'parser.rs', r'precidence\.1 < l_bp', 'precidence.0 < l_bp'),
